@@ -181,16 +181,15 @@ def c07_jobs(tier):
     for n in range(0, 4 + 1):
         for w in range(1, min(n + 2, 4) + 1):
             js.append(job("ZZ_C07_ParEquiv", E, n=n, w=w))
-    if tier == "thorough":
-        js += [job("ZZ_C07_ParEquiv", E, n=5, w=1), job("ZZ_C07_ParEquiv", E, n=5, w=2)]
+
     # longer texts built from lines (blank / short / long / error lines x LF / CRLF): chunk boundaries at every
     # position relative to blank lines and CR LF pairs (added after finding F9)
     lines = [(6, 2, 0, 0), (5, 3, 1, 0), (5, 2, 1, 1)] if tier == "quick" else \
-        [(6, 2, 0, 0), (6, 2, 1, 1), (5, 3, 1, 0), (5, 3, 0, 1), (4, 4, 1, 1), (7, 2, 0, 0)]
+        [(6, 2, 0, 0), (5, 3, 1, 0), (5, 2, 1, 1), (6, 2, 1, 1), (5, 3, 0, 1), (4, 4, 1, 1)]
     for L, w, op, al in lines:
         js.append(job("ZZ_C07_Lines", E, L=L, w=w, open=op, alpha=al))
     # the real record parser on generated documents (valid and invalid)
-    for L, w in ([(2, 2), (3, 2), (3, 3)] if tier == "quick" else [(2, 2), (3, 2), (3, 3), (4, 2)]):
+    for L, w in ([(2, 2), (3, 2), (3, 3)]):
         js.append(job("ZZ_C07_RealParse", U, L=L, fmt=L % 3, rot=w % 4, faults=1, w=w))
     return js
 
@@ -575,7 +574,7 @@ CHECKS = {
         "jobs": c07_jobs,
         "bounds": {
             "quick": "every byte string of length 0..4 x worker counts 1..min(n+2,4) x every order in which the workers can deliver their results (all w! orders); texts of 5-6 lines, each line one of {empty, `a`, `aaa` | `!aa`} x {LF, CRLF}, optionally an unterminated last line, with 2-3 workers (every chunk boundary position relative to blank lines and CR LF pairs in texts up to 31 bytes)",
-            "thorough": "as quick plus every byte string of length 5 with 1-2 workers; line-built texts of up to 7 lines with 2, 5 lines with 3 and 4 lines with 4 workers",
+            "thorough": "as quick plus further line-built texts: 6 lines incl. error lines and an unterminated last line with 2 workers, 5 lines with error lines with 3 workers, 4 lines with 4 workers (5-byte arbitrary strings and 7-line texts did not finish within 25 minutes and are not registered)",
         },
         "outside": "longer texts and other line contents than those listed (finding F9 needed 13 bytes and was outside the arbitrary-bytes bound until the line-built texts were added); interleavings finer than result delivery (workers share only immutable strings and the result channel: assumed, not shown); the real record parser as ParseOne (the engine is generic: a deterministic stub ParseOne that echoes the block and flags lines starting with `!` is used; composition with the real parse is covered by C01/C10 serial-vs-parallel jobs)",
         "stubs": [MODELS["utf8"], MODELS["bytealg"], "goroutines as coroutines under the engine scheduler; channel receive chooses nondeterministically among pending senders (all orders explored); sync.WaitGroup modelled; math.Ceil on concrete floats"],
